@@ -78,6 +78,7 @@ func runL4(r *ev.Run) bool {
 		}
 		add(fmt.Sprintf("0 0 <20 keys> 20 CHECKMULTISIG NOT + %d NOPs (ops=%d)", n-22, n), cat([]byte{0, 0}, k20, []byte{0x01, 20, refscript.OP_CHECKMULTISIG, refscript.OP_NOT}, repb([]byte{N}, n-22)), nil, "bare", "p2wsh")
 		add(fmt.Sprintf("%d NOPs then 0 0 <20 keys> 20 CHECKMULTISIG NOT (ops=%d)", n-22, n), cat(repb([]byte{N}, n-22), []byte{0, 0}, k20, []byte{0x01, 20, refscript.OP_CHECKMULTISIG, refscript.OP_NOT}), nil, "bare", "p2wsh")
+		add(fmt.Sprintf("%d NOPs then 0 0 <20 keys> 20 CHECKMULTISIG as the last op (ops=%d exactly when the keys are added)", n-21, n), cat(repb([]byte{N}, n-21), []byte{0, 0}, k20, []byte{0x01, 20, refscript.OP_CHECKMULTISIG}), nil, "bare", "p2wsh")
 		add(fmt.Sprintf("unexecuted CHECKMULTISIG does not add keys: 0 IF 0 0 20 CHECKMULTISIG ENDIF 1 + %d NOPs", n-3), cat([]byte{0, refscript.OP_IF, 0, 0, 0x01, 20, refscript.OP_CHECKMULTISIG, refscript.OP_ENDIF, 0x51}, repb([]byte{N}, n-3)), nil)
 	}
 	add("tapscript: 5000 NOPs", cat(one, repb([]byte{N}, 5000)), nil, "tap", "p2wsh", "bare")
